@@ -34,6 +34,12 @@ def build(tier, seed, exclude):
                 err = AP.c14({shape!r}, {bits}, {ch})
                 return T.fail(err) if err else True
             """, timeout=to)
+    # polling-worker schedules (results reach the disk before the futures are reported), all failable nodes failing
+    for shape in ("indep", "forkjoin"):
+        g.cond(f"h_{shape}_fail3_lagging", params, pre, f"""
+            err = AP.c14({shape!r}, 3, {ch}, lagging=True)
+            return T.fail(err) if err else True
+        """, timeout=to)
     g.cond("twin_c14", "c0: int", ["0 <= c0 < 2"], """
         err = AP.c14("indep", 1, [T.real(c0)])
         return False
